@@ -43,4 +43,15 @@ P('C10', ['sess.*', 'cookie'], ['login', 'remember', 'expire'], ['core', 'full']
 P('C19', ['db.ex', 'db.pw', 'db.arb', 'db.conf', 'db.cTok', 'db.extra', 'sess.uid', 'resp.class', 'resp.loc', 'resp.mails'],
   ['register'], ['core', 'full'], foot_acts=['RegisterPost'])
 
+OPIDS = {'Pids': '{"u1","o_pa_x","o_pa_y","o_pb_x","o_pb_y"}'}
+P('C02', ['sess.uid', 'sess.twofa', 'sess.totpPend', 'sess.smsPend', 'sess.smsCode', 'sess.smsFresh', 'resp.sms'],
+  ['twofa', 'smsswitch'], ['twofa', 'full'], fam_consts={'twofa': {'MaxDepth': 5}},
+  tconsts={'MaxDepth': 6})
+P('C12', ['db.otps', 'db.rcLeft', 'db.rcg', 'db.totpLast', 'sess.smsCode', 'sess.uid'], ['otp', 'twofa'], ['twofa', 'full'],
+  fam_consts={'twofa': {'MaxDepth': 5}, 'otp': {'MaxIss': 7}}, tconsts={'MaxDepth': 6})
+P('C13', ['db.totp', 'db.sms', 'db.rcg', 'db.rcLeft', 'sess.tfaTok', 'sess.tfaAuthed', 'sess.totpSetup', 'sess.smsNum'],
+  ['tfasetup'], ['twofa', 'full'], fam_consts={'tfasetup': {'MaxDepth': 6}}, tconsts={'MaxDepth': 7})
+P('C14', ['sess.oState', 'sess.oHas', 'sess.oRm', 'sess.uid', 'db.ex', 'db.extra'], ['oauth'], ['oauth', 'full'],
+  fam_consts={'oauth': dict(OPIDS, MaxDepth=5)}, tconsts={'MaxDepth': 6}, foot_acts=['OAuthStart', 'OAuthCallback'])
+
 COMPONENT = {}
